@@ -8,7 +8,8 @@ LEVEL = 'exploration'
 RULE = (
     'Generated nesting to depth 3 with the awaited child on the own or another bus, 0-3 yields or a sleep between '
     'dispatch and await (mode later + awaitall), other events queued on every bus, forwarding of the child, warm and '
-    'cold target buses, parallel buses, bounded histories smaller than the fan-out (awaited children evicted while queued); '
+    'cold target buses, parallel buses, bounded histories smaller than the fan-out (awaited children evicted while queued), '
+    'the same wildcard handler nested through its own awaited children deep enough to trip the recursion guard; '
     'event_timeout=None. Oracle at every in-handler await return: the child and all '
     'harness-known accepted descendants are complete; no handler is still blocked in an await at the stall horizon. '
     'Non-trivial = an in-handler await targeted another bus, or the handler yielded/slept between dispatch and await, '
@@ -16,7 +17,7 @@ RULE = (
 )
 ASSUMPTIONS = ['virtual time; CPU-time dependent races (real duration of 1000 zero-sleeps) are not explored', 'event_timeout=None so the "unless cancelled by its timeout" clause is not in play']
 
-P = Profile(hist=[None, None, 50, 2, 3, 5], raises=0.1, actor_ops=['disp', 'disp', 'burst', 'dispany', 'sleep', 'await', 'yield'], maxdepth=[2, 3], wild=0.15, fwd=0.3, min_buses=1, max_buses=3, modes=['await', 'await', 'later', 'later', 'ff'], ops=['sleep', 'yield', 'yield', 'disp', 'disp', 'disp', 'awaitall', 'awaitall'], par=0.15)
+P = Profile(deep_wild=True, hist=[None, None, 50, 2, 3, 5], raises=0.1, actor_ops=['disp', 'disp', 'burst', 'dispany', 'sleep', 'await', 'yield'], maxdepth=[2, 3], wild=0.15, fwd=0.3, min_buses=1, max_buses=3, modes=['await', 'await', 'later', 'later', 'ff'], ops=['sleep', 'yield', 'yield', 'disp', 'disp', 'disp', 'awaitall', 'awaitall'], par=0.15)
 
 
 def budget(tier):
@@ -60,7 +61,11 @@ def nontrivial(F):
 
 
 def classes(F):
-    return common_classes(F) + ['await:' + k for k in sorted(_kinds(F))]
+    cl = common_classes(F) + ['await:' + k for k in sorted(_kinds(F))]
+    # the library's own recursion guard refused a handler somewhere (same handler nested > 2 levels through awaited children)
+    if any(r['err'] == 'RuntimeError' and r['errkey'] is None for s in F.final.values() for r in s['results']):
+        cl.append('recursion-guard-tripped')
+    return cl
 
 
 def classify(sc, out, v):
